@@ -1,4 +1,416 @@
-(* C10 -- soundness of the effect checker (noninterference).  Lemmas only. *)
+(* C10 -- soundness of the effect checker (noninterference).  Lemmas only.
+   Part 1: boolean reflection, the relation between two worlds, simulation of the events other than calls. *)
 From Coq Require Import String List Bool Arith ZArith Lia.
 From TV Require Import Model.Effects.
 Import ListNotations.
+
+Local Arguments timing : simpl never.
+Local Arguments memk : simpl never.
+Local Arguments mems : simpl never.
+Local Arguments nontiming : simpl never.
+
+(* ------------------------------------------------------------------------------------------------ *)
+(* boolean reflection and list lookups                                                               *)
+(* ------------------------------------------------------------------------------------------------ *)
+
+Lemma dloc_eqb_eq a b : dloc_eqb a b = true <-> a = b.
+Proof.
+  destruct a as [a1 a2], b as [b1 b2]; unfold dloc_eqb; cbn. rewrite andb_true_iff, !String.eqb_eq.
+  split; [intros [-> ->]; reflexivity | intros H; inversion H; auto].
+Qed.
+
+Lemma dloc_eqb_refl a : dloc_eqb a a = true.
+Proof. apply dloc_eqb_eq; reflexivity. Qed.
+
+Lemma dkey_eqb_eq a b : dkey_eqb a b = true <-> a = b.
+Proof.
+  destruct a as [a1 a2], b as [b1 b2]; unfold dkey_eqb; cbn. rewrite andb_true_iff, dloc_eqb_eq, String.eqb_eq.
+  split; [intros [-> ->]; reflexivity | intros H; inversion H; auto].
+Qed.
+
+Lemma memk_In k l : memk k l = true <-> In k l.
+Proof.
+  unfold memk. rewrite existsb_exists. split.
+  - intros [x [Hx He]]. apply dkey_eqb_eq in He. subst; assumption.
+  - intros H. exists k. split; [assumption | apply dkey_eqb_eq; reflexivity].
+Qed.
+
+Lemma mems_In k l : mems k l = true <-> In k l.
+Proof.
+  unfold mems. rewrite existsb_exists. split.
+  - intros [x [Hx He]]. apply String.eqb_eq in He. subst; assumption.
+  - intros H. exists k. split; [assumption | apply String.eqb_refl].
+Qed.
+
+Lemma memc_In c t : memc c t = true <-> In c t.
+Proof. unfold memc. destruct (in_dec actx_eq_dec c t); split; auto; discriminate. Qed.
+
+Lemma lookup_map {A B} (f : A -> B) l x :
+  lookup (map (fun p => (fst p, f (snd p))) l) x = option_map f (lookup l x).
+Proof. induction l as [|[y a] r IH]; cbn; [reflexivity|]. destruct (String.eqb x y); [reflexivity | exact IH]. Qed.
+
+Lemma lookup_In {A} (l : list (string * A)) x v : lookup l x = Some v -> In (x, v) l.
+Proof.
+  induction l as [|[y a] r IH]; cbn; [discriminate|]. destruct (String.eqb x y) eqn:E.
+  - intros H; inversion H; subst. apply String.eqb_eq in E. subst. left; reflexivity.
+  - intros H; right; auto.
+Qed.
+
+Lemma find_fn_name api f g : find_fn api f = Some g -> fname g = f.
+Proof.
+  induction api as [|h r IH]; cbn; [discriminate|]. destruct (String.eqb f (fname h)) eqn:E.
+  - intros H; inversion H; subst. apply String.eqb_eq in E. auto.
+  - exact IH.
+Qed.
+
+Lemma oaval_eqb_eq a b : oaval_eqb a b = true -> a = b.
+Proof. destruct a as [[]|], b as [[]|]; cbn; try discriminate; reflexivity. Qed.
+
+Lemma addk_spec l k cl x : memk x (addk l k cl) = true -> memk x cl = true \/ x = (l, k).
+Proof.
+  unfold addk. destruct (timing k); [auto|]. destruct (memk (l, k) cl); [auto|].
+  rewrite !memk_In. cbn. intros [H|H]; auto.
+Qed.
+
+Lemma addk_mono l k cl x : memk x cl = true -> memk x (addk l k cl) = true.
+Proof.
+  unfold addk. destruct (timing k); [auto|]. destruct (memk (l, k) cl); [auto|].
+  rewrite !memk_In. cbn. auto.
+Qed.
+
+Lemma addk_new l k cl : timing k = false -> memk (l, k) (addk l k cl) = true.
+Proof.
+  unfold addk. intros ->. destruct (memk (l, k) cl) eqn:E; [assumption|]. apply memk_In. left; reflexivity.
+Qed.
+
+Lemma addks_spec l ks : forall cl x, memk x (addks l ks cl) = true -> memk x cl = true \/ (fst x = l /\ In (snd x) ks).
+Proof.
+  induction ks as [|k r IH]; cbn; intros cl x H; [auto|].
+  apply IH in H. destruct H as [H|[H1 H2]]; [|auto].
+  apply addk_spec in H. destruct H as [H|H]; [auto|]. subst x. cbn. auto.
+Qed.
+
+Lemma inter_spec a b x : memk x (inter a b) = true -> memk x a = true /\ memk x b = true.
+Proof.
+  unfold inter. rewrite memk_In, filter_In. intros [H1 H2]. split; [apply memk_In; assumption | assumption].
+Qed.
+
+Lemma restrict_sub U cl de x : memk x (restrict U cl de) = true -> memk x cl = true.
+Proof.
+  unfold restrict. rewrite memk_In, in_flat_map. intros [l [_ H]]. apply in_map_iff in H.
+  destruct H as [k [<- H]]. apply filter_In in H. apply H.
+Qed.
+
+Lemma reset_keys_spec {V} (wval : nat -> string -> list (obs V) -> option V) s h l ks : forall d l' k',
+  reset_keys V wval s h d l ks l' k' = if dloc_eqb l' l && mems k' ks then wval s k' h else d l' k'.
+Proof.
+  induction ks as [|k r IH]; intros d l' k'; cbn [reset_keys].
+  - unfold mems; cbn. rewrite andb_false_r. reflexivity.
+  - rewrite IH. unfold upd_dd, mems. cbn [existsb]. fold (mems k' r).
+    destruct (dloc_eqb l' l); cbn; [|reflexivity].
+    destruct (mems k' r); [rewrite orb_true_r; reflexivity|]. rewrite orb_false_r.
+    destruct (String.eqb k' k) eqn:E; [|reflexivity]. apply String.eqb_eq in E. subst. reflexivity.
+Qed.
+
+(* ------------------------------------------------------------------------------------------------ *)
+(* two worlds                                                                                        *)
+(* ------------------------------------------------------------------------------------------------ *)
+
+Section Sim.
+  Variables Sg V : Type.
+  Variable draw : nat -> list (obs V) -> Sg -> V * Sg.
+  Variable decide : nat -> list (obs V) -> bool.
+  Variable wval : nat -> string -> list (obs V) -> option V.
+  Variable wany : list (obs V) -> (string -> option V) -> string -> option V.
+  Variable init : Z -> Sg.
+  Variable ent_draw : Sg -> Sg * Sg.
+  Variable clock : Sg -> V * Sg.
+  Variable U : dloc -> list string.
+  Variable api : list fn.
+  Variable P : nat -> Prop.              (* the generator objects the call may use *)
+
+  Local Notation state := (state Sg V).
+  Local Notation hist := (hist Sg V).
+  Local Notation lg := (lg Sg V).
+  Local Notation gs := (gs Sg V).
+  Local Notation ent := (ent Sg V).
+  Local Notation ck := (ck Sg V).
+  Local Notation ext := (ext Sg V).
+  Local Notation dd := (dd Sg V).
+  Local Notation obsv := (obsv Sg V).
+  Local Notation step := (step Sg V draw wval wany init ent_draw clock U).
+  Local Notation exec := (exec Sg V draw decide wval wany init ent_draw clock U api).
+  Local Notation stable := (no_new_difference Sg V).
+  Local Notation outside := (untouched_outside Sg V P).
+  Local Notation confined := (confined Sg V U).
+
+  Record Rel (a b : state) : Prop := mkRel {
+    r_hist : hist a = hist b;
+    r_lg : lg a = lg b;
+    r_ext : forall k, P k -> ext a k = ext b k;
+    r_c1 : confined a;
+    r_c2 : confined b }.
+
+  Definition agree (cl : list dkey) (a b : state) : Prop :=
+    forall l k, memk (l, k) cl = true -> timing k = false -> dd a l k = dd b l k.
+
+  Definition sval_ok (v : sval) : Prop := match v with VGenExt k => P k | _ => True end.
+  Definition cfn_ok (c : cfn) : Prop :=
+    match c with CFClos _ cap => forall x v, In (x, v) cap -> sval_ok v | _ => True end.
+  Definition frame_ok (fr : frame) : Prop :=
+    (forall x v, In (x, v) (senv fr) -> sval_ok v) /\ (forall p c, In (p, c) (fenv fr) -> cfn_ok c).
+
+  Definition typed (env : list (string * aval)) (de : list (string * cloc)) (fe : list (string * afn)) (fr : frame) : Prop :=
+    (forall x v, lookup (senv fr) x = Some v -> lookup env x = Some (abs_val v)) /\
+    denv fr = de /\ map (fun pc => (fst pc, abs_fn (snd pc))) (fenv fr) = fe.
+
+  Definition Concl env de fe (r : res) (a b : state) (f : flag) (fr' : frame) (a' b' : state) : Prop :=
+    typed env de fe fr' /\ frame_ok fr' /\ Rel a' b' /\ stable a b a' b' /\ outside a a' /\
+    (f = FN -> exists cl', rpost r = Some cl' /\ agree cl' a' b').
+
+  Lemma stable_refl a b : stable a b a b.
+  Proof. intros l k _ H; exact H. Qed.
+  Lemma stable_trans a b a1 b1 a2 b2 : stable a b a1 b1 -> stable a1 b1 a2 b2 -> stable a b a2 b2.
+  Proof. intros H1 H2 l k Hk H. apply H2; auto. Qed.
+  Lemma outside_refl a : outside a a.
+  Proof. repeat split; reflexivity. Qed.
+  Lemma outside_trans a a1 a2 : outside a a1 -> outside a1 a2 -> outside a a2.
+  Proof.
+    intros [H1 [H2 H3]] [G1 [G2 G3]]. repeat split.
+    - rewrite G1; exact H1. - rewrite G2; exact H2. - intros k Hk. rewrite G3, H3; auto.
+  Qed.
+  Lemma agree_stable cl a b a' b' : agree cl a b -> stable a b a' b' -> agree cl a' b'.
+  Proof. intros H1 H2 l k Hm Hk. apply H2; auto. Qed.
+  Lemma agree_sub cl cl' a b : (forall x, memk x cl = true -> memk x cl' = true) -> agree cl' a b -> agree cl a b.
+  Proof. intros Hs H l k Hm Hk. apply H; auto. Qed.
+
+  Lemma typed_set_senv env de fe fr x v :
+    typed env de fe fr -> lookup env x = Some (abs_val v) -> typed env de fe (set_senv fr x v).
+  Proof.
+    intros [H1 [H2 H3]] Hx. repeat split; [|exact H2|exact H3].
+    intros y w. cbn. destruct (String.eqb y x) eqn:E.
+    - intros H; inversion H; subst. apply String.eqb_eq in E. subst. exact Hx.
+    - apply H1.
+  Qed.
+
+  Lemma ok_set_senv fr x v : frame_ok fr -> sval_ok v -> frame_ok (set_senv fr x v).
+  Proof.
+    intros [H1 H2] Hv. split; [|exact H2]. cbn. intros y w [H|H]; [inversion H; subst; exact Hv | eauto].
+  Qed.
+
+  Lemma loc_of_typed env de fe fr d : typed env de fe fr -> loc_of fr d = aloc_of de d.
+  Proof. intros [_ [H _]]. unfold loc_of, aloc_of. rewrite H. reflexivity. Qed.
+
+  (* state updates that keep the worlds related *)
+  Lemma Rel_obsv a b o : Rel a b -> Rel (obsv a o) (obsv b o).
+  Proof. intros [H1 H2 H3 H4 H5]. constructor; cbn; auto. rewrite H1; reflexivity. Qed.
+
+  Lemma Rel_set_lg a b l : Rel a b -> Rel (set_lg Sg V a l) (set_lg Sg V b l).
+  Proof. intros [H1 H2 H3 H4 H5]. constructor; cbn; auto. Qed.
+
+  Lemma Rel_set_ck a b c1 c2 : Rel a b -> Rel (set_ck Sg V a c1) (set_ck Sg V b c2).
+  Proof. intros [H1 H2 H3 H4 H5]. constructor; cbn; auto. Qed.
+
+  Lemma Rel_set_dd a b d1 d2 :
+    Rel a b -> (forall l k, mems k (U l) = false -> d1 l k = None) -> (forall l k, mems k (U l) = false -> d2 l k = None) ->
+    Rel (set_dd Sg V a d1) (set_dd Sg V b d2).
+  Proof. intros [H1 H2 H3 H4 H5] G1 G2. constructor; cbn; auto. Qed.
+
+  Lemma Rel_set_ext a b k s : Rel a b -> Rel (set_ext Sg V a k s) (set_ext Sg V b k s).
+  Proof.
+    intros [H1 H2 H3 H4 H5]. constructor; cbn; auto. intros j Hj. destruct (Nat.eqb j k); auto.
+  Qed.
+
+  Ltac inv H := inversion H; subst; clear H.
+  Ltac csplit := unfold Concl; split; [|split; [|split; [|split; [|split]]]].
+
+  (* a step that leaves the dictionaries alone and the frame typed *)
+  Lemma concl_nodd env de fe r a b fr' a' b' cl :
+    typed env de fe fr' -> frame_ok fr' -> Rel a' b' -> dd a' = dd a -> dd b' = dd b -> outside a a' ->
+    agree cl a b -> rpost r = Some cl -> Concl env de fe r a b FN fr' a' b'.
+  Proof.
+    intros Ht Ho HR Ha Hb Hout Hag Hp. csplit; try assumption.
+    - intros l k _. rewrite Ha, Hb. auto.
+    - intros _. exists cl. split; [assumption|]. intros l k Hm Hk. rewrite Ha, Hb. auto.
+  Qed.
+
+  Lemma concl_exc env de fe r a b fr f : f <> FN ->
+    typed env de fe fr -> frame_ok fr -> Rel a b -> Concl env de fe r a b f fr a b.
+  Proof.
+    intros Hf Ht Ho HR. csplit; try assumption.
+    - apply stable_refl. - apply outside_refl. - intros C; contradiction.
+  Qed.
+
+  Lemma new_gen_sim env de fe r fr a b x g cl :
+    typed env de fe fr -> frame_ok fr -> Rel a b -> agree cl a b -> rpost r = Some cl ->
+    lookup env x = Some AGenDet ->
+    exists b', (let (fr', st') := new_gen Sg V fr b x g in (FN, fr', st')) =
+               (FN, fst (new_gen Sg V fr a x g), b') /\
+               Concl env de fe r a b FN (fst (new_gen Sg V fr a x g)) (snd (new_gen Sg V fr a x g)) b'.
+  Proof.
+    intros Ht Ho HR Hag Hp Hx. unfold new_gen. cbn [fst snd].
+    exists (set_lg Sg V b (lg b ++ [g])). rewrite (r_lg _ _ HR). split; [reflexivity|].
+    eapply concl_nodd; eauto.
+    - apply typed_set_senv; [assumption|]. exact Hx.
+    - apply ok_set_senv; [assumption|exact I].
+    - rewrite <- (r_lg _ _ HR). apply Rel_set_lg. assumption.
+    - apply outside_refl.
+  Qed.
+
+  Definition plain (e : event) : Prop := match e with Call _ _ _ _ _ | CallParam _ _ => False | _ => True end.
+
+  Lemma upd_dd_confined (d : dloc -> string -> option V) l k v :
+    (forall l k, mems k (U l) = false -> d l k = None) -> mems k (U l) = true ->
+    forall l' k', mems k' (U l') = false -> upd_dd V d l k v l' k' = None.
+  Proof.
+    intros Hd Hk l' k' H. unfold upd_dd. destruct (dloc_eqb l' l) eqn:E1; cbn; [|auto].
+    destruct (String.eqb k' k) eqn:E2; [|auto]. apply dloc_eqb_eq in E1. apply String.eqb_eq in E2. subst. congruence.
+  Qed.
+
+  Lemma step_sim : forall e env de fe cl fr a b f fr' a',
+    plain e ->
+    rok (chk_event U api env de fe e cl) = true ->
+    typed env de fe fr -> frame_ok fr -> Rel a b -> agree cl a b ->
+    step e fr a = (f, fr', a') ->
+    exists b', step e fr b = (f, fr', b') /\ Concl env de fe (chk_event U api env de fe e cl) a b f fr' a' b'.
+  Proof.
+    intros e env de fe cl fr a b f fr' a' Hpl Hck Ht Ho HR Hag Hst.
+    pose proof (r_hist _ _ HR) as Hh. pose proof (r_lg _ _ HR) as Hl.
+    destruct e; cbn [plain] in Hpl; try contradiction; cbn [step chk_event] in *.
+    - (* MkGen x y *)
+      destruct (lookup (senv fr) y) as [v|] eqn:Ly.
+      + pose proof (proj1 Ht _ _ Ly) as Ey. rewrite Ey in *.
+        destruct v; cbn [abs_val mk_of] in *; try discriminate.
+        * (* VInt *)
+          apply oaval_eqb_eq in Hck.
+          destruct (new_gen_sim env de fe (cond (oaval_eqb (lookup env x) (Some AGenDet)) (Some cl) "MkGen" x)
+                      fr a b x (init z) cl) as [b' [E C]]; auto.
+          unfold new_gen in *. cbn [fst snd] in *. inv Hst. exists b'. split; assumption.
+        * (* VGenLoc *)
+          apply oaval_eqb_eq in Hck. inv Hst. exists b. split; [reflexivity|].
+          eapply concl_nodd; eauto.
+          -- apply typed_set_senv; assumption. -- apply ok_set_senv; [assumption|exact I]. -- apply outside_refl.
+        * (* VGenExt *)
+          apply oaval_eqb_eq in Hck. inv Hst. exists b. split; [reflexivity|].
+          eapply concl_nodd; eauto.
+          -- apply typed_set_senv; assumption.
+          -- apply ok_set_senv; [assumption|]. apply (proj1 Ho y). apply lookup_In. assumption.
+          -- apply outside_refl.
+      + inv Hst. exists b. split; [reflexivity|]. apply concl_exc; auto. discriminate.
+    - discriminate.
+    - (* MkGenConst *)
+      apply oaval_eqb_eq in Hck.
+      destruct (new_gen_sim env de fe (cond (oaval_eqb (lookup env x) (Some AGenDet)) (Some cl) "MkGenConst" x)
+                  fr a b x (init z) cl) as [b' [E C]]; auto.
+      unfold new_gen in *. cbn [fst snd] in *. inv Hst. exists b'. split; assumption.
+    - (* RandPrim *)
+      inv Hst. exists b. split; [reflexivity|]. eapply concl_nodd; eauto. apply outside_refl.
+    - discriminate.
+    - (* DrawFrom *)
+      destruct (lookup (senv fr) g) as [v|] eqn:Lg.
+      + pose proof (proj1 Ht _ _ Lg) as Eg. rewrite Eg in *.
+        destruct v; cbn [abs_val] in *; try discriminate.
+        * rewrite <- Hl. destruct (nth_error (lg a) i) as [gi|] eqn:Ei.
+          -- rewrite <- Hh. destruct (draw s (hist a) gi) as [v gi'] eqn:Ed. inv Hst.
+             eexists. split; [reflexivity|]. eapply concl_nodd; eauto.
+             ++ apply Rel_obsv. apply Rel_set_lg. assumption.
+             ++ apply outside_refl.
+          -- inv Hst. exists b. split; [reflexivity|]. apply concl_exc; auto. discriminate.
+        * assert (Pk : P k) by (apply (proj1 Ho g (VGenExt k)); apply lookup_In; assumption).
+          rewrite <- Hh, <- (r_ext _ _ HR k Pk). destruct (draw s (hist a) (ext a k)) as [v g'] eqn:Ed. inv Hst.
+          eexists. split; [reflexivity|]. eapply concl_nodd; eauto.
+          ++ apply Rel_obsv. apply Rel_set_ext. assumption.
+          ++ repeat split; cbn; auto. intros j Hj. destruct (Nat.eqb j k) eqn:E; [|reflexivity].
+             apply Nat.eqb_eq in E. subst. contradiction.
+      + inv Hst. exists b. split; [reflexivity|]. apply concl_exc; auto. discriminate.
+    - (* Reset *)
+      rewrite (loc_of_typed _ _ _ _ d Ht) in *. destruct (aloc_of de d) as [l|].
+      + cbn [cond rok rpost] in *. inv Hst. eexists. split; [reflexivity|].
+        assert (Hks : forall k, In k ks -> mems k (U l) = true)
+          by (intros k Hk; exact (proj1 (forallb_forall _ _) Hck k Hk)).
+        assert (Hc : forall h (d0 : dloc -> string -> option V), (forall l k, mems k (U l) = false -> d0 l k = None) ->
+                     forall l' k', mems k' (U l') = false -> reset_keys V wval s h d0 l ks l' k' = None).
+        { intros h d0 Hd l' k' Hk. rewrite reset_keys_spec. destruct (dloc_eqb l' l) eqn:E1; cbn; [|auto].
+          destruct (mems k' ks) eqn:E2; [|auto]. apply dloc_eqb_eq in E1. subst.
+          apply mems_In in E2. apply Hks in E2. congruence. }
+        csplit; try assumption; cbn.
+        * apply Rel_set_dd; [assumption| |]; apply Hc; [apply (r_c1 _ _ HR) | apply (r_c2 _ _ HR)].
+        * intros l' k' Hk E. rewrite !reset_keys_spec, Hh. destruct (dloc_eqb l' l && mems k' ks); auto.
+        * apply outside_refl.
+        * intros _. eexists. split; [reflexivity|]. intros l' k' Hm Hk. rewrite !reset_keys_spec, Hh.
+          destruct (dloc_eqb l' l && mems k' ks) eqn:E; [reflexivity|].
+          apply addks_spec in Hm. destruct Hm as [Hm|[H1 H2]]; [apply Hag; assumption|]. cbn in H1, H2. subst.
+          rewrite dloc_eqb_refl in E. apply mems_In in H2. rewrite H2 in E. discriminate.
+      + inv Hst. exists b. split; [reflexivity|]. eapply concl_nodd; eauto. apply outside_refl.
+    - (* Read *)
+      rewrite (loc_of_typed _ _ _ _ d Ht) in *. destruct (aloc_of de d) as [l|].
+      + cbn [cond rok rpost] in *. inv Hst.
+        assert (E : dd a l k = dd b l k).
+        { apply orb_true_iff in Hck. destruct Hck as [H|H].
+          - apply andb_true_iff in H. destruct H as [H1 H2]. apply Hag; [assumption|]. destruct (timing k); [discriminate|reflexivity].
+          - apply negb_true_iff in H. rewrite (r_c1 _ _ HR), (r_c2 _ _ HR); auto. }
+        rewrite E. eexists. split; [reflexivity|]. eapply concl_nodd; eauto.
+        * apply Rel_obsv; assumption. * apply outside_refl.
+      + inv Hst. exists b. split; [reflexivity|]. eapply concl_nodd; eauto. apply outside_refl.
+    - (* LogRead *)
+      inv Hst. exists b. split; [reflexivity|]. eapply concl_nodd; eauto. apply outside_refl.
+    - (* Write *)
+      rewrite (loc_of_typed _ _ _ _ d Ht) in *. destruct (aloc_of de d) as [l|].
+      + cbn [cond rok rpost] in *. inv Hst. eexists. split; [reflexivity|].
+        csplit; try assumption; cbn.
+        * apply Rel_set_dd; [assumption| |]; apply upd_dd_confined; auto; [apply (r_c1 _ _ HR) | apply (r_c2 _ _ HR)].
+        * intros l' k' Hk E. unfold upd_dd. rewrite Hh. destruct (dloc_eqb l' l && String.eqb k' k); auto.
+        * apply outside_refl.
+        * intros _. eexists. split; [reflexivity|]. intros l' k' Hm Hk. unfold upd_dd. rewrite Hh.
+          destruct (dloc_eqb l' l && String.eqb k' k) eqn:E; [reflexivity|].
+          apply addk_spec in Hm. destruct Hm as [Hm|Hm]; [apply Hag; assumption|]. inv Hm.
+          rewrite dloc_eqb_refl, String.eqb_refl in E. discriminate.
+      + inv Hst. exists b. split; [reflexivity|]. eapply concl_nodd; eauto. apply outside_refl.
+    - (* WriteT *)
+      rewrite (loc_of_typed _ _ _ _ d Ht) in *. destruct (aloc_of de d) as [l|].
+      + cbn [cond rok rpost] in *. apply andb_true_iff in Hck. destruct Hck as [Hu Htk].
+        destruct (clock (ck a)) as [v c'] eqn:Ea. destruct (clock (ck b)) as [v2 c2] eqn:Eb. inv Hst.
+        eexists. split; [reflexivity|].
+        assert (Hne : forall (d1 d2 : dloc -> string -> option V) w1 w2 l' k', timing k' = false -> d1 l' k' = d2 l' k' ->
+                      upd_dd V d1 l k w1 l' k' = upd_dd V d2 l k w2 l' k').
+        { intros d1 d2 w1 w2 l' k' Hk E. unfold upd_dd. destruct (String.eqb k' k) eqn:E2.
+          - apply String.eqb_eq in E2. subst. congruence.
+          - rewrite andb_false_r. assumption. }
+        csplit; try assumption; cbn.
+        * apply Rel_set_dd; [apply Rel_set_ck; assumption| |]; apply upd_dd_confined; auto; [apply (r_c1 _ _ HR) | apply (r_c2 _ _ HR)].
+        * intros l' k' Hk E. apply Hne; assumption.
+        * apply outside_refl.
+        * intros _. eexists. split; [reflexivity|]. intros l' k' Hm Hk. apply Hne; [assumption|]. apply Hag; assumption.
+      + inv Hst. exists b. split; [reflexivity|]. eapply concl_nodd; eauto. apply outside_refl.
+    - (* WriteAny *)
+      rewrite (loc_of_typed _ _ _ _ d Ht) in *. destruct (aloc_of de d) as [l|]; [discriminate|].
+      inv Hst. exists b. split; [reflexivity|]. eapply concl_nodd; eauto. apply outside_refl.
+    - (* Clear *)
+      rewrite (loc_of_typed _ _ _ _ d Ht) in *. destruct (aloc_of de d) as [l|].
+      + cbn [rok rpost] in *. inv Hst. eexists. split; [reflexivity|].
+        csplit; try assumption; cbn.
+        * apply Rel_set_dd; [assumption| |]; intros l' k' Hk; unfold upd_loc; destruct (dloc_eqb l' l); auto;
+            [apply (r_c1 _ _ HR) | apply (r_c2 _ _ HR)]; assumption.
+        * intros l' k' Hk E. unfold upd_loc. destruct (dloc_eqb l' l); auto.
+        * apply outside_refl.
+        * intros _. eexists. split; [reflexivity|]. intros l' k' Hm Hk. unfold upd_loc.
+          destruct (dloc_eqb l' l) eqn:E; [reflexivity|].
+          apply addks_spec in Hm. destruct Hm as [Hm|[H1 H2]]; [apply Hag; assumption|]. cbn in H1. subst.
+          rewrite dloc_eqb_refl in E. discriminate.
+      + inv Hst. exists b. split; [reflexivity|]. eapply concl_nodd; eauto. apply outside_refl.
+    - (* ReadAll *)
+      rewrite (loc_of_typed _ _ _ _ d Ht) in *. destruct (aloc_of de d) as [l|].
+      + cbn [cond rok rpost] in *. inv Hst.
+        assert (E : map (dd a l) (nontiming (U l)) = map (dd b l) (nontiming (U l))).
+        { apply map_ext_in. intros k Hk. apply Hag.
+          - exact (proj1 (forallb_forall _ _) Hck k Hk).
+          - unfold nontiming in Hk. apply filter_In in Hk. destruct Hk as [_ Hk]. destruct (timing k); [discriminate|reflexivity]. }
+        rewrite E. eexists. split; [reflexivity|]. eapply concl_nodd; eauto.
+        * apply Rel_obsv; assumption. * apply outside_refl.
+      + inv Hst. exists b. split; [reflexivity|]. eapply concl_nodd; eauto. apply outside_refl.
+    - (* Clock *)
+      inv Hst. eexists. split; [reflexivity|]. eapply concl_nodd; eauto.
+      + apply Rel_set_ck; assumption. + apply outside_refl.
+    - discriminate.
+  Qed.
+End Sim.
